@@ -1,10 +1,16 @@
 (* C20 — Variants hold what they were given: typed access, copies and equality.
-   The model is the VALUE model the property describes: a variant register holds a value, a list held by a variant is
-   its own.  That the Go implementation (pointers, slices, backing arrays with spare capacity) behaves like this value
-   model is established by the correspondence on operation histories, not by these theorems (see level_note). *)
+   Two layers.  The VALUE machine is what the property describes: a variant register holds a value, a list held by a
+   variant is its own.  The HEAP machine (VariantHeap.v) is what Variant.go does: variant objects at addresses, a list
+   held as a slice (backing array, length, spare capacity), append that writes into spare capacity or reallocates with an
+   unspecified amount of slack, constructors that allocate or write in place, Assign that shares the slice.  The first
+   group of theorems is about the value machine; the second shows that the heap machine, for every amount of slack and
+   every history that keeps the discipline of DESIGN.md 4.3 (a handle that shares its list through Assign is not written
+   in place), IS the value machine when read as values - so the first group holds of it.  The correspondence runs the
+   heap machine (with the slack measured from the Go runtime) against Variant.go, histories that break the discipline
+   included. *)
 From Coq Require Import List ZArith Bool Lia.
 Import ListNotations.
-Require Import VariantValue VariantValueProofs.
+Require Import VariantValue VariantValueProofs VariantHeap VariantHeapProofs RunC20 VariantHeapRun.
 Open Scope Z_scope.
 
 Theorem C20_typed_access : forall z s,
@@ -36,6 +42,57 @@ Theorem C20_mutating_a_clone_never_changes_the_original : forall m c i ops, c <>
   reg (fold_left step ops (step m (OCopy c i))) i = reg m i.
 Proof. exact clone_isolated. Qed.
 
+(* ---- the heap machine ---- *)
+(* one step: the invariant (separation of backing arrays: registers from caller lists, registers from each other unless
+   linked by Assign, caller lists from each other) and the abstraction are kept by every allowed operation *)
+Theorem C20_heap_step_refines_value_step : forall slack m lk v o,
+  inv m lk -> rel m v -> allowed (length (hregs m)) (length (hlists m)) lk o = true ->
+  inv (hstep slack m o) (lk_next lk o) /\ rel (hstep slack m o) (step v (erase o)).
+Proof. exact hstep_refines. Qed.
+
+(* histories: from nr empty variants and any caller lists (backing array + length), after every disciplined history the
+   heap machine read as values is the value machine - for every amount of spare capacity append may leave *)
+Theorem C20_heap_machine_is_the_value_machine : forall slack ops nr ls,
+  Forall (fun p : list val * nat => (snd p <= length (fst p))%nat) ls ->
+  disc nr (length ls) (fun _ => false) ops = true ->
+  abs (fold_left (hstep slack) ops (hinit nr ls)) = fold_left step (map erase ops) (vinit nr ls).
+Proof. exact heap_history_is_value_history. Qed.
+
+(* what the correspondence executes: the observations of the heap run are those of the value run *)
+Theorem C20_heap_run_is_value_run : forall slack ops, disc 4 2 (fun _ => false) ops = true ->
+  hrun20 slack (hinit 4 lists20) ops = run20 (vinit 4 lists20) (map erase ops).
+Proof. exact heap_model_is_value_model. Qed.
+Theorem C20_heap_decoder_agrees : forall s, erase (dec_hop s) = dec_op20 s.
+Proof. exact dec_hop_erase. Qed.
+
+(* the two history statements of the property, on the heap *)
+Theorem C20_heap_mutating_a_clone_never_changes_the_original : forall slack nr ls pre c i fl ops,
+  Forall (fun p : list val * nat => (snd p <= length (fst p))%nat) ls ->
+  c <> i -> Forall (fun o => target (erase o) <> Some i) ops ->
+  disc nr (length ls) (fun _ => false) (pre ++ HCopy c i fl :: ops) = true ->
+  reg (abs (fold_left (hstep slack) (pre ++ HCopy c i fl :: ops) (hinit nr ls))) i = reg (abs (fold_left (hstep slack) pre (hinit nr ls))) i.
+Proof. exact heap_clone_isolated. Qed.
+Theorem C20_heap_own_copy_of_the_list : forall slack nr ls pre i k inplace ops,
+  Forall (fun p : list val * nat => (snd p <= length (fst p))%nat) ls ->
+  Forall (fun o => list_op (erase o) = true) ops ->
+  disc nr (length ls) (fun _ => false) (pre ++ HFromList i k inplace :: ops) = true ->
+  reg (abs (fold_left (hstep slack) (pre ++ HFromList i k inplace :: ops) (hinit nr ls))) i =
+  reg (abs (fold_left (hstep slack) (pre ++ [HFromList i k inplace]) (hinit nr ls))) i.
+Proof. exact heap_own_copy. Qed.
+
+(* the premise is satisfiable by a history that uses every operation, and it is needed: without the discipline the two
+   machines differ *)
+Example C20_heap_premise_satisfiable :
+  disc 4 2 (fun _ => false)
+    [HListAppend 0 (Int 1); HListAppend 0 (Int 2); HFromList 0 0 false; HCopy 1 0 2; HListWrite 0 0 (Int 9); HCopy 2 0 0;
+     HSetByIndex 2 5 (Str [97]); HNew 1 (Int 3) true; HSetLength 2 9; HListTruncate 0; HListAppend 0 (Int 4); HSetElem 2 3 (Int 8)] = true.
+Proof. exact disciplined_sample. Qed.
+Example C20_heap_discipline_is_needed :
+  let ops := [HListAppend 0 (Int 1); HFromList 0 0 false; HCopy 1 0 2; HSetByIndex 0 0 (Int 7)] in
+  disc 4 2 (fun _ => false) ops = false /\
+  hrun20 (fun _ => O) (hinit 4 lists20) ops <> run20 (vinit 4 lists20) (map erase ops).
+Proof. exact undisciplined_history_differs. Qed.
+
 Example C20_nonvacuous :
   let m0 := {| regs := [Null; Null]; lists := [[Int 1; Int 2]] |} in
   let m := fold_left step [OFromList 0 0; OListWrite 0 0 (Int 9); OCopy 1 0; OSetByIndex 1 3 (Str [97]); OListAppend 0 (Int 5)] m0 in
@@ -48,3 +105,9 @@ Print Assumptions C20_equality_is_symmetric.
 Print Assumptions C20_clone_equals_original.
 Print Assumptions C20_own_copy_of_the_list.
 Print Assumptions C20_mutating_a_clone_never_changes_the_original.
+Print Assumptions C20_heap_step_refines_value_step.
+Print Assumptions C20_heap_machine_is_the_value_machine.
+Print Assumptions C20_heap_run_is_value_run.
+Print Assumptions C20_heap_decoder_agrees.
+Print Assumptions C20_heap_mutating_a_clone_never_changes_the_original.
+Print Assumptions C20_heap_own_copy_of_the_list.
